@@ -60,6 +60,7 @@ type Schedule struct {
 	ID    string            `json:"id"`
 	Kind  string            `json:"kind"`            // "walk" | "case"
 	Uniq  bool              `json:"uniq"`            // ibctesting's unique channel ids (false: every chain counts from channel-0)
+	Chan  map[string]uint64 `json:"chan,omitempty"`  // identifier layout: channel end -> N of its identifier channel-N (overrides uniq)
 	Bases map[string]string `json:"bases,omitempty"` // placeholder -> concrete base denomination (filled by the runner)
 	KF    string            `json:"kf,omitempty"`    // input class of a known finding (decided by TLC at generation)
 	Acts  []json.RawMessage `json:"acts"`
@@ -178,7 +179,11 @@ type World struct {
 
 func pktKey(e string, seq int64) string { return fmt.Sprintf("%s#%d", e, seq) }
 
-func NewWorld(t *testing.T, uniq bool) *World {
+// NewWorld builds the three chains and the three transfer channels.  chanIDs (channel end -> N) fixes the channel
+// identifiers deterministically (ibctesting's own uniqueness counter is process-global): the layouts used by the
+// generators give the two ends of a channel different identifiers, let a chain's OTHER channel carry the counterparty's
+// identifier, and make the two identifiers of a chain textual prefixes of one another (channel-1 / channel-10).
+func NewWorld(t *testing.T, uniq bool, chanIDs map[string]uint64) *World {
 	w := &World{t: t, ch: map[string]*ibctesting.TestChain{}, ep: map[string]*ibctesting.Endpoint{},
 		acct: map[string]map[string]ibctesting.SenderAccount{}, addr: map[string]map[string]sdk.AccAddress{},
 		addrName: map[string]map[string]string{}, rest: map[string][]sdk.AccAddress{},
@@ -190,10 +195,23 @@ func NewWorld(t *testing.T, uniq bool) *World {
 	}
 	for _, pr := range [][2]string{{"A", "B"}, {"B", "C"}, {"C", "A"}} {
 		path := ibctesting.NewTransferPath(w.ch[pr[0]], w.ch[pr[1]])
-		if !uniq {
+		ea, eb := pr[0]+pr[1]+"."+pr[0], pr[0]+pr[1]+"."+pr[1]
+		if na, ok := chanIDs[ea]; ok {
+			nb := chanIDs[eb]
 			path.DisableUniqueChannelIDs()
+			path.SetupConnections()
+			w.ch[pr[0]].App.GetIBCKeeper().ChannelKeeper.SetNextChannelSequence(w.ch[pr[0]].GetContext(), na)
+			w.ch[pr[1]].App.GetIBCKeeper().ChannelKeeper.SetNextChannelSequence(w.ch[pr[1]].GetContext(), nb)
+			path.CreateChannels()
+			if path.EndpointA.ChannelID != fmt.Sprintf("channel-%d", na) || path.EndpointB.ChannelID != fmt.Sprintf("channel-%d", nb) {
+				t.Fatalf("channel identifier layout not obtained: %s/%s", path.EndpointA.ChannelID, path.EndpointB.ChannelID)
+			}
+		} else {
+			if !uniq {
+				path.DisableUniqueChannelIDs()
+			}
+			path.Setup()
 		}
-		path.Setup()
 		w.ep[pr[0]+pr[1]+"."+pr[0]] = path.EndpointA
 		w.ep[pr[0]+pr[1]+"."+pr[1]] = path.EndpointB
 	}
